@@ -1,30 +1,20 @@
 package main
 
 func init() {
-	register("C05", "PROD-TABLE etc.", rulePRECTABLE, rulePRODTABLE, ruleBRACKETS)
-	register("C06", "", rulePRODGUARD, rulePRODEXTRA, ruleACCEPT, ruleVALIDATEDOM)
-	register("C07", "", rulePUSHSTATE)
-	register("C09", "", ruleWSSET, ruleKWCASE, rulePARENID)
-	register("C11", "", ruleDFCOVER, ruleDFACCEPT)
-	register("C01", "", ruleREDBAL, rulePARPUSH, rulePANIC_C01, ruleFMT)
-	register("C13", "", rulePANIC_C13)
-	register("C10", "", ruleRETPAIR, ruleCTORNONNIL, ruleVALTOTAL, ruleVALSHAPE, ruleVALIDATEDOM)
-}
-
-func init() {
-	register("C16", "", ruleLEXPEEK, ruleLEXTOK, ruleLEXWRITE, ruleLEXDEPTH, ruleLEXFIRST, ruleLEXLOOP, ruleWSSET, rulePARSEERR)
-	register("C08", "", rulePHRASELOOP)
-}
-
-func init() {
-	register("C02", "", ruleSQLTAINT, ruleSQLVOCAB, ruleSQLLEAF, ruleSQLIDLEN)
+	register("C01", "", ruleREDBAL, rulePARPUSH, rulePANIC_C01, ruleFMT, ruleLOOP, ruleLEXLOOP, ruleREC)
+	register("C02", "", ruleSQLTAINT, ruleNUMFINITE, ruleSQLVOCAB, ruleSQLLEAF, ruleSQLIDLEN)
 	register("C03", "", ruleSQLOPMAP, ruleSQLPAREN, ruleSQLRANGE, ruleSQLNUM, ruleMARKER)
-}
-
-func init() {
 	register("C04", "", ruleSIBRENDER, ruleSIBSER, ruleSIBRANGE, ruleSIBLIKE, rulePHLINEAR, ruleNONINT)
-}
-
-func init() {
+	register("C05", "", rulePRECTABLE, rulePRODTABLE, ruleBRACKETS)
+	register("C06", "", rulePRODGUARD, rulePRODEXTRA, ruleACCEPT, ruleVALIDATEDOM, ruleLITTYPE, ruleNODESOURCES, ruleVALSHAPE)
+	register("C07", "", rulePUSHSTATE)
+	register("C08", "", rulePHRASELOOP, ruleLITTYPE, ruleSQLTAINT)
+	register("C09", "", ruleWSSET, ruleKWCASE, rulePARENID)
+	register("C10", "", ruleRETPAIR, ruleCTORNONNIL, ruleVALTOTAL, ruleVALSHAPE, ruleVALIDATEDOM)
+	register("C11", "", ruleDFCOVER, ruleDFACCEPT, ruleDFFLOW)
+	register("C12", "", ruleOPBIJ, ruleJSONDEFAULTS, ruleJSONTAGS, ruleJSONLEAF, ruleNUMFINITE, rulePANIC_C12)
+	register("C13", "", rulePANIC_C13)
+	register("C14", "", rulePURG, rulePURARG, ruleDET)
 	register("C15", "", ruleFOLD, ruleFOLDMISS, ruleTABLEKEYS)
+	register("C16", "", ruleLEXPEEK, ruleLEXTOK, ruleLEXWRITE, ruleLEXDEPTH, ruleLEXFIRST, ruleLEXLOOP, ruleWSSET, rulePARSEERR)
 }
